@@ -258,6 +258,7 @@ CLAIMED = {
         note='orjson and "no proper prefix of an entry parses" trusted (exercised by truncation); hash shape (64 hex chars) and '
              'no-collision are explicit hypotheses; NumpyArrayCache/DataFrameCache share FileCache logic without key check '
              '(ca_checks_key=false in the model) but are not yet driven by the correspondence',
+        note2='the same histories are run on a NumpyArrayCache against the model instantiated without key recording (ca_checks_key = false); DataFrameCache and further array kinds by a runtime round-trip suite',
         technique='Coq proof (case analysis of the cache step, path injectivity by length/slash counting) + differential '
                   'correspondence via vm_compute',
         ref='DESIGN.md section 5, C14'),
@@ -319,7 +320,7 @@ def main():
             replay_cmd_template=f'./check {pid} --replay {{path}}',
             engine='coq-model',
             level_claimed=dict(category=c['category'], text=c['text'], design_ref=c['ref']),
-            level_note=c['note'],
+            level_note=c['note'] + ((' ' + c['note2']) if 'note2' in c else ''),
             technique=c['technique'],
         ))
     claimed = sorted(CLAIMED)
